@@ -193,7 +193,11 @@ fn perform(run: &mut Run, bad: &Bad) -> Option<(String, std::io::Result<()>)> {
             let rows: Vec<Vec<Value>> = (0..extra).map(|i| vec![Value::Int(start + i), Value::from(format!("over the limit {i}"))]).collect();
             Some((format!("insert(Full, {extra} more rows)"), run.pkg().insert_rows(Insert::into("Full").rows(rows))))
         }
-        Bad::PoolFull(k) => match (k / 16) % 4 {
+        Bad::PoolFull(k) => match (k / 16) % 5 {
+            4 => Some((
+                "update(U) assigning three strings new to a pool that has one free entry".into(),
+                run.pkg().update_rows(Update::table("U").set("a", Value::from("new-a")).set("b", Value::from("new-b")).set("c", Value::from("new-c"))),
+            )),
             3 => Some((
                 "create_table(Extra) whose three names fit into the pool but whose enumeration does not".into(),
                 run.pkg().create_table("Extra", vec![Column::build("FirstNewName").primary_key().int16(), Column::build("SecondNewName").nullable().enum_values(&["A", "B"]).string(8)]),
@@ -428,9 +432,34 @@ pub fn check_case(case: &Case, st: &mut Stats) -> Check {
             return Ok(());
         }
         // the session continues on a file whose pool is already full
-        let bytes = crate::props::c20::file_with_pool(if (k / 16) % 4 == 3 { 65_532 } else { 65_535 })?;
+        let variant = (k / 16) % 5;
+        let bytes = crate::props::c20::file_with_pool(match variant {
+            3 => 65_532,
+            4 => 65_000,
+            _ => 65_535,
+        })?;
         run.buf = crate::media::SharedBuf::new(bytes);
         run.pkg = Some(Package::open(run.buf.clone()).map_err(|e| Fail::new(format!("{P} unexpected-error op=Open"), e.to_string()))?);
+        if variant == 4 {
+            // a row with one string that is referenced nowhere else and two
+            // that other rows hold as well, then filler strings until exactly
+            // one pool entry is free
+            let setup = (|| -> std::io::Result<()> {
+                run.pkg().create_table("U", vec![Column::build("k").primary_key().int16(), Column::build("a").string(0), Column::build("b").string(0), Column::build("c").string(0)])?;
+                run.pkg().insert_rows(Insert::into("U").row(vec![Value::Int(1), Value::from("only-here-a"), Value::from("s000010"), Value::from("s000011")]))?;
+                run.pkg().flush()
+            })();
+            let entries = fmt::decode(&run.buf.contents()).map(|d| d.pool.entries.len()).unwrap_or(usize::MAX);
+            if setup.is_err() || entries >= 65_534 {
+                st.class("not-applicable");
+                return Ok(());
+            }
+            let filler = 65_535 - entries - 1;
+            if run.pkg().insert_rows(Insert::into("S").rows((0..filler).map(|i| vec![Value::Str(format!("fill{i:06}"))]).collect())).is_err() {
+                st.class("not-applicable");
+                return Ok(());
+            }
+        }
         run.trace.push("(the package is replaced by a file whose string pool holds 65,535 entries, or 65,532 for the late-failing creation)".into());
     }
     if let Bad::DropGhost(k) = &case.bad {
@@ -553,7 +582,7 @@ fn bad_strategy() -> impl Strategy<Value = Bad> {
         1 => any::<u8>().prop_map(Bad::StreamMissing),
         2 => any::<u8>().prop_map(Bad::DropGhost),
         1 => any::<u8>().prop_map(Bad::InsertOverRowLimit),
-        1 => any::<u8>().prop_map(Bad::PoolFull),
+        2 => any::<u8>().prop_map(Bad::PoolFull),
     ]
 }
 
